@@ -38,7 +38,8 @@ package elasticsearch
 
 //@ func (*Plugin).appendIndexName
 //@   option allow-exit yes
-//@   loop 1 invariant 0 <= replacements
+//@   ensures len(result) >= len(outBuf)
+//@   loop 1 invariant 0 <= replacements && len(outBuf) >= old(len(outBuf))
 //@   assert at "outBuf = append(outBuf, value...)" nochr(value, '"') && nochr(value, '\\') && allchr(value, 32, 255)
 //@   callee Dig(path) (n)
 //@     pure
@@ -73,4 +74,58 @@ package elasticsearch
 //@   callee IsDeadQueueAvailable() (r)
 //@     pure
 //@   callee Log(l, m, f)
+//@     pure
+
+// appendEvent: an action line and a document line are appended, each closed by a
+// newline (the bulk framing); nothing before the old end of the buffer is touched
+// by the appends themselves.
+
+//@ func (*Plugin).appendEvent
+//@   option allow-exit yes
+//@   ensures len(result) >= len(outBuf) + 2 && result[len(result) - 1] == '\n'
+//@   callee Encode(buf) (r, n)
+//@     pure
+//@     ensures len(r) >= len(buf)
+
+// out: as in the http output - the offset table handed to sendSplit is built by
+// the ForEach callback, one entry per deliverable event in order, plus the end
+// offset.  Table invariant T(n): len(begin) == n, entries nondecreasing and
+// within the buffer.  The callback takes T(n) to T(n+1); ForEach calls nothing
+// but the callback (its own contract in package pipeline), so T holds after it
+// (stated as an assumed ensures of the call: the higher-order step is by reading).
+
+//@ func (*Plugin).out$1
+//@   option allow-exit yes
+//@   requires data != nil && len(data.begin) == eventsCount && eventsCount >= 0
+//@   requires nondecreasing(data.begin) && allrange(data.begin, 0, len(data.outBuf) + 1)
+//@   ensures eventsCount == old(eventsCount) + 1
+//@   ensures len(data.begin) == old(len(data.begin)) + 1
+//@   ensures allrange(data.begin, 0, len(data.outBuf) + 1)
+//@   ensures nondecreasing(data.begin)
+//@   ensures data.begin[eventsCount - 1] == old(len(data.outBuf)) && len(data.outBuf) > old(len(data.outBuf)) && data.outBuf[len(data.outBuf) - 1] == '\n'
+//@   callee appendEvent(buf, e) (r)
+//@     pure
+
+// (appendEvent writes only behind the old end of the buffer or into a new block;
+// `pure` at this call says that nothing this callback reads afterwards - the table,
+// the counter, the plugin - is touched by it: an assumption by reading, listed.)
+
+//@ func (*Plugin).out
+//@   option allow-exit yes
+//@   ghost s0 int
+//@   bind sendSplit sentTo := s0
+//@   assume at "statusCode, err = p.sendSplit(0, eventsCount, data.begin, data.outBuf)" s0 == data.begin[0]
+//@   requires p.config.BatchSize_ >= 0 && p.config.BatchSize_ * p.avgEventSize >= 0
+//@   requires workerData != nil && (isnil(*workerData) || typeis(*workerData, "*github.com/ozontech/file.d/plugin/output/elasticsearch.data"))
+//@   callee ForEach(cb)
+//@     requires data != nil && len(data.begin) == 0 && eventsCount == 0 && len(data.outBuf) == 0
+//@     ensures data != nil && len(data.begin) == eventsCount && eventsCount >= 0
+//@     ensures nondecreasing(data.begin) && allrange(data.begin, 0, len(data.outBuf) + 1)
+//@   callee send(d)
+//@     pure
+//@   callee WithLabelValues(l)
+//@     pure
+//@   callee Inc()
+//@     pure
+//@   callee Error(m, f)
 //@     pure
